@@ -424,6 +424,12 @@ def template_kinds(ctx, cls, col, rule):
                     if val is None:
                         continue
                     n += 1
+                    if isinstance(val, ast.Constant) and val.value is None and fn.name in ("_initialize_solver_state_elements", "__init__") \
+                            and k.endswith("array") and bad is None:
+                        # the fresh solver's state is the restore template: a None leaf is skipped by Orbax, so the saved array
+                        # is silently not restored
+                        bad = (owner, fn, st, "None (so the template has no leaf here and the saved array is skipped on restore)")
+                        continue
                     got = expr_kind(val, kinds)
                     if k == "float64 array" and not (got or "").endswith(" array"):
                         got = None
